@@ -1,5 +1,5 @@
 CONSTANTS T = 2  N = 40  S = 32  Dir = "enc"  EofPeek = TRUE  Pad = 0
-  Gate = FALSE  NotifyReady = TRUE  NotifyUpdate = TRUE  WaitLoop = TRUE  ReadyTest = TRUE  Spurious = FALSE
+  Gate = FALSE  NotifyReady = TRUE  NotifyUpdate = TRUE  WaitLoop = TRUE  ReadyTest = TRUE  Spurious = FALSE  Unbounded = FALSE
   Loads <- MCLoads  DecPad <- MCDecPad
 SPECIFICATION Spec
 INVARIANTS TypeOK Exclusive NoUnderflow InOrder OutPrefix OutExact Quiescent LockDiscipline
